@@ -204,3 +204,49 @@ Theorem C09_text_nested_examples :
   TokenModel.block_scan [47; 42; 47; 42; 47] = None /\
   TokenModel.block_scan [47; 42; 47; 42; 42; 47; 42; 47] = Some 4%nat.
 Proof. vm_compute. repeat split. Qed.
+
+(* ---------------------------------------------------------------------------------------------- *)
+(* The LAST separator (Text/ShowNestedEnd.v).  The end-separator languages of ShowSpec / ShowNested already contain "the text ends
+   inside a line comment that has no line feed" (constructors ESep_eof / NESep_eof; the scanner consumes to the end of the input), so
+   the theorems above cover such texts whenever the separators are chosen that way.  Explicitly, and whatever the last separator of
+   the text is (white space, complete comments, nested block comments, or itself an unterminated line comment): ANY text of
+   C09_text_roundtrip_nested followed by   ws ++ "//" ++ body   - white space, a line comment WITHOUT line feed, body any valid
+   UTF-8 without LF - tokenizes and parses to the identical statements (final_comment ws body = ws ++ [47; 47] ++ body). *)
+From Trion Require Import Text.ShowNestedEnd.
+
+Theorem C09_text_roundtrip_final_comment : forall stmts seps ws body,
+  forallb writable_stmt stmts = true -> nseps_ok (render_stmts stmts) seps ->
+  white ws -> Forall (fun b => b <> 10) body -> Valid body ->
+  exists els, parse_bytes (show (render_stmts stmts) seps ++ final_comment ws body)
+                = Some (Done (map IOk els) [PollNone; PollNone; PollNone]) /\
+              map e_val els = stmts.
+Proof. exact text_roundtrip_final_comment. Qed.
+
+(* ... with any valid parenthesisation and any spelling of each token *)
+Theorem C09_text_roundtrip_final_comment_spelled : forall stmts ws seps w body,
+  RendStmts stmts (map wtok_val ws) -> Forall wtok_ok ws -> nwseps_ok ws seps ->
+  white w -> Forall (fun b => b <> 10) body -> Valid body ->
+  exists els, parse_bytes (showw ws seps ++ final_comment w body)
+                = Some (Done (map IOk els) [PollNone; PollNone; PollNone]) /\
+              map e_val els = stmts.
+Proof. exact textw_roundtrip_final_comment. Qed.
+
+(* the end-separator language is closed under appending such a comment *)
+Theorem C09_text_final_comment_separator : forall ws body, white ws -> Forall (fun b => b <> 10) body -> Valid body ->
+  forall e, nend_separator e -> nend_separator (e ++ final_comment ws body).
+Proof. exact nend_separator_final. Qed.
+
+(* non-vacuity:  .d 1;//x //end   - the last separator `//x` is itself an unterminated line comment, ` //end` is appended; the
+   premises hold, the text and its parse are computed; and  `.d 1; //`  (empty comment at the end of the input) *)
+Theorem C09_text_final_comment_example_premises :
+  forallb writable_stmt [ex_final_stmt] = true /\ nseps_ok (render_stmts [ex_final_stmt]) ex_final_seps /\
+  white ex_final_ws /\ Forall (fun b => b <> 10) ex_final_body /\ Valid ex_final_body.
+Proof. exact ex_final_ok. Qed.
+
+Theorem C09_text_final_comment_examples :
+  show (render_stmts [ex_final_stmt]) ex_final_seps ++ final_comment ex_final_ws ex_final_body
+    = [46; 100; 32; 49; 59; 47; 47; 120; 32; 47; 47; 101; 110; 100] /\
+  parse_bytes (show (render_stmts [ex_final_stmt]) ex_final_seps ++ final_comment ex_final_ws ex_final_body)
+    = Some (Done [IOk (mkElement 1 1 ex_final_stmt)] [PollNone; PollNone; PollNone]) /\
+  parse_bytes [46; 100; 32; 49; 59; 32; 47; 47] = Some (Done [IOk (mkElement 1 1 ex_final_stmt)] [PollNone; PollNone; PollNone]).
+Proof. exact ex_final_run. Qed.
